@@ -44,12 +44,35 @@ def hiding_parents(g: gen.Gen, bad) -> list:
     ]
 
 
+def cancelling_parents(g: gen.Gen, bad) -> list:
+    """parents that undo the offending node algebraically (the round trip `f⁻¹(f(u))`, `u · 1/u`,
+    `u − u`, `u / u`): a shortcut that returns `u` for the pair must still fail where `f(u)` does"""
+    X = gen.X
+    c = wire.cls(bad)
+    out = [X.Minus(bad, bad), X.Divide(bad, bad), X.NthRoot(X.NthPower(bad, 2), 2), X.NthRoot(X.NthPower(bad, 3), 3),
+           X.Negation(X.Negation(bad)), X.Multiply(bad, X.Reciprocal(bad))]
+    if c == "NthRoot":
+        n = bad._parameter
+        out += [X.NthPower(bad, n), X.NthPower(bad, 2 * n), X.Multiply(*([bad] * min(n, 4))),
+                X.Add(g.expr(1), X.NthPower(bad, n)), X.Multiply(X.Constant(0), X.NthPower(bad, n))]
+    if c == "Logarithm":
+        out += [X.Exponential(bad, base=bad._parameter), X.Exponential(X.Multiply(X.Constant(2), bad), base=bad._parameter)]
+    if c == "Reciprocal":
+        out += [X.Reciprocal(bad), X.Multiply(bad, bad._inner), X.Divide(X.Constant(1), bad)]
+    if c == "Divide":
+        out += [X.Multiply(bad, bad._right), X.Multiply(bad._right, bad), X.Reciprocal(bad)]
+    if c == "Power":
+        out += [X.Logarithm(bad), X.Power(bad, X.Reciprocal(bad._right)), X.NthRoot(bad, 2)]
+    return out
+
+
 def gen_cases(rng, tier: str) -> list[dict]:
     cases = []
     for rnd in range(common.sizes(tier, 6, 40)):
         g = gen.Gen(rng, names=("x", "y"))
         for bad in offenders(g):
             exprs = [("offender", bad)] + [("hidden", h) for h in hiding_parents(g, bad)]
+            exprs += [("cancelled", h) for h in cancelling_parents(g, bad)]
             exprs.append(("wrapped", gen.wrap_random(g, bad, 2)))
             for origin, e in exprs:
                 prior: list[str] = []
